@@ -14,16 +14,18 @@ Proof. induction a as [|x a IH]; [reflexivity|]. cbn. rewrite N.eqb_refl, IH. re
 Lemma builds_delta_iff x q :
   builds_delta x q = true <->
   q_kind q = Delta /\ st_stack (x_st x) <> [] /\ q_over q = false /\
-  m_branches (x_meta x) = q_branches q /\ m_opts (x_meta x) = q_opts q.
+  m_branches (x_meta x) = q_branches q /\ m_opts (x_meta x) = q_opts q /\
+  ignore_changed (length (q_branches q)) (st_last (x_st x)) (q_snap q) = false.
 Proof.
   unfold builds_delta, fallback_reason. split.
   - destruct (q_kind q); [discriminate|]. destruct (st_stack (x_st x)) as [|l s]; [discriminate|].
     destruct (q_over q); [discriminate|].
     destruct (list_eqb N.eqb (m_branches (x_meta x)) (q_branches q)) eqn:Eb; cbn [negb]; [|discriminate].
     destruct (N.eqb (m_opts (x_meta x)) (q_opts q)) eqn:Eo; cbn [negb]; [|discriminate].
+    destruct (ignore_changed (length (q_branches q)) (st_last (x_st x)) (q_snap q)) eqn:Ei; [discriminate|].
     intros _. repeat split; [discriminate | apply list_eqb_N_eq; exact Eb | apply N.eqb_eq; exact Eo].
-  - intros (Hk & Hs & Ho & Hb & Hop). rewrite Hk. destruct (st_stack (x_st x)) as [|l s]; [contradiction|].
-    rewrite Ho, Hb, Hop, list_eqb_N_refl, N.eqb_refl. reflexivity.
+  - intros (Hk & Hs & Ho & Hb & Hop & Hi). rewrite Hk. destruct (st_stack (x_st x)) as [|l s]; [contradiction|].
+    rewrite Ho, Hb, Hop, Hi, list_eqb_N_refl, N.eqb_refl. reflexivity.
 Qed.
 
 Lemma fallback_is_full x q r :
@@ -45,7 +47,7 @@ Lemma xstep_XInv x q : XInv x -> XInv (xrun_step x q).
 Proof.
   intro HI. unfold XInv, xrun_step. cbn [x_meta x_st m_branches].
   destruct (builds_delta x q) eqn:E.
-  - apply builds_delta_iff in E. destruct E as (_ & _ & _ & Hb & _).
+  - apply builds_delta_iff in E. destruct E as (_ & _ & _ & Hb & _ & _).
     apply delta_preserves_Inv. unfold XInv in HI. rewrite Hb in HI. exact HI.
   - apply full_establishes_Inv.
 Qed.
